@@ -406,12 +406,16 @@ def check_oracle(dirname, oracles):
         if cli_args.debug:
             print('We found compiler crash')
         for pid, proc_res in oracles.items():
-            if not proc_res.failed:
-                shutil.copytree(
-                    os.path.join(cli_args.test_directory, 'tmp', str(pid)),
-                    os.path.join(cli_args.test_directory, str(pid)))
-                proc_res.stats['error'] = compiler.crash_msg
+            if proc_res.failed:
+                # The tool itself failed on this program; report it as in
+                # the regular case.
                 output[pid] = proc_res.stats
+                continue
+            shutil.copytree(
+                os.path.join(cli_args.test_directory, 'tmp', str(pid)),
+                os.path.join(cli_args.test_directory, str(pid)))
+            proc_res.stats['error'] = compiler.crash_msg
+            output[pid] = proc_res.stats
         return output, compilation_time
 
     output = {}
@@ -435,7 +439,8 @@ def check_oracle(dirname, oracles):
                                    oracle)
                 shutil.copytree(
                     os.path.join(cli_args.test_directory, 'tmp', str(pid)),
-                    os.path.join(cli_args.test_directory, str(pid)))
+                    os.path.join(cli_args.test_directory, str(pid)),
+                    dirs_exist_ok=True)
                 if stop:
                     print(proc_res.stats['error'])
                     sys.exit(1)
@@ -454,7 +459,8 @@ def check_oracle(dirname, oracles):
                                    oracle)
                 shutil.copytree(
                     os.path.join(cli_args.test_directory, 'tmp', str(pid)),
-                    os.path.join(cli_args.test_directory, str(pid)))
+                    os.path.join(cli_args.test_directory, str(pid)),
+                    dirs_exist_ok=True)
         shutil.rmtree(os.path.join(cli_args.test_directory, 'tmp',
                                    str(pid)))
     # Clear the directory of programs.
